@@ -6,12 +6,16 @@ import json
 import os
 import subprocess
 import sys
+import threading
 
 REPO = os.environ.get("VERIF_REPO", "/repo")
 VERIF = os.path.dirname(os.path.dirname(os.path.abspath(__file__)))
 CACHE = os.path.join(VERIF, ".cache", "ast")
 
 CLANG = "clang-16"
+
+# version of the slimmed AST kept in the cache (part of every cache key): bump when strip() keeps more/other fields
+FORMAT = "v2"
 
 
 def build_dir():
@@ -123,6 +127,17 @@ def strip(n, keep):
                         out["line"] = ln
                 continue
             if k == "range":
+                if keep and n.get("kind") in ("AtomicExpr", "StmtExpr"):
+                    # where the outermost macro invocation that produced this node starts (file, byte offset): the
+                    # DISPATCH_VERIF hook reports __LINE__ = last line of that invocation (src2v.macro_extent)
+                    saved = _cur_file[0]
+                    b = v.get("begin", {})
+                    _track(b)
+                    ex = b.get("expansionLoc", b)
+                    if "offset" in ex and _cur_file[0]:
+                        out["xoff"] = ex["offset"]
+                        out["xfile"] = _cur_file[0]
+                    _cur_file[0] = saved
                 if n.get("kind") == "AtomicExpr" and keep:
                     b = v.get("begin", {})
                     sp = b.get("spellingLoc", b)
@@ -149,8 +164,29 @@ def strip(n, keep):
 def get_function(cfile, fname):
     """returns the FunctionDecl (with body) named fname visible in cfile, or None"""
     os.makedirs(CACHE, exist_ok=True)
-    key = hashlib.sha256((tree_hash() + cfile + fname).encode()).hexdigest()[:24]
+    key = hashlib.sha256((FORMAT + tree_hash() + cfile + fname).encode()).hexdigest()[:24]
     cp = os.path.join(CACHE, key + ".json")
+    if os.path.exists(cp):
+        with open(cp) as fh:
+            return json.load(fh)
+    with _key_lock(cp):
+        return _get_function_locked(cfile, fname, cp)
+
+
+# strip() keeps per-process state (_cur_file, _file_cache): the clang runs of the prefetch threads go in parallel, the
+# walk over each dump does not; and one function is dumped by one thread only (two threads once wrote the same temporary
+# file at the same time and cached a mix of two dumps: node ids of two clang runs in one tree)
+_strip_lock = threading.Lock()
+_key_locks = {}
+_key_locks_mu = threading.Lock()
+
+
+def _key_lock(cp):
+    with _key_locks_mu:
+        return _key_locks.setdefault(cp, threading.Lock())
+
+
+def _get_function_locked(cfile, fname, cp):
     if os.path.exists(cp):
         with open(cp) as fh:
             return json.load(fh)
@@ -159,16 +195,23 @@ def get_function(cfile, fname):
     r = subprocess.run(cmd, stdout=subprocess.PIPE, stderr=subprocess.PIPE, text=True)
     if r.returncode != 0:
         raise RuntimeError("clang failed on %s: %s" % (cfile, r.stderr[-2000:]))
+    with _strip_lock:
+        res = _select(r.stdout, fname)
+    tmp = cp + ".tmp%d.%d" % (os.getpid(), threading.get_ident())
+    with open(tmp, "w") as fh:
+        json.dump(res, fh)
+    os.replace(tmp, cp)
+    return res
+
+
+def _select(text, fname):
     res = None
     _cur_file[0] = None
-    for d in parse_docs(r.stdout):
+    for d in parse_docs(text):
         sel = (res is None and d.get("kind") == "FunctionDecl" and d.get("name") == fname and has_body(d))
         x = strip(d, sel)
         if sel:
             res = x
-    with open(cp + ".tmp%d" % os.getpid(), "w") as fh:
-        json.dump(res, fh)
-    os.replace(cp + ".tmp%d" % os.getpid(), cp)
     return res
 
 
